@@ -236,7 +236,7 @@ def make_items(objtype, key, schema, rng=None, pick=None):
         items.append(Item(key, [kw(key), T("qstr", "init=epsg:4326"), kw("END", False)], ["init=epsg:4326"], "projection-1", kind="projection"))
         items.append(Item(key, [kw(key), T("qstr", "proj=utm"), T("qstr", "zone=15"), T("qstr", "datum=WGS84"), kw("END", False)],
                           ["proj=utm", "zone=15", "datum=WGS84"], "projection-3", kind="projection"))
-        items.append(Item(key, [kw(key), kw("AUTO", False), kw("END", False)], ["AUTO"], "projection-auto", kind="projection"))
+        items.append(Item(key, [kw(key), T("enum", "AUTO"), kw("END", False)], ["AUTO"], "projection-auto", kind="projection"))
         return items
     if key == "config":
         items.append(Item(key, [kw(key), T("qstr", "MS_ERRORFILE"), T("qstr", "stderr")], ("config", [("ms_errorfile", "stderr")]), "config", kind="config"))
